@@ -1,20 +1,20 @@
 """C26 -- writing fixed files is atomic and faithful.
 
-Two layers, both over the REAL code of `LintedFile._safe_create_replace_file` / `LintedFile.persist_tree`
+Three layers, all over the REAL code of `LintedFile._safe_create_replace_file` / `LintedFile.persist_tree`
 (imported from <src>/sqlfluff, `--src` honoured through the imported module object; nothing hard-coded):
 
+LAYER 0 (pyvc, symbolic)  contracts/c26_fs.py: _safe_create_replace_file under a contract over a GHOST FILE SYSTEM (entries
+                          with ghost content / codec / st_mode, a fault counter, a creation history), every primitive it
+                          calls under an ASSUMED contract with a normal AND an exceptional postcondition, `with` exit =
+                          close as a model hook; persist_tree, LintedDir.persist_changes and the apply_fixes statements of
+                          Linter.lint_paths (region) under contracts over path strings with a ghost recorder of the write call.
 LAYER 1 (EXTRA, static)   exception-flow / ordering obligations C26/static/* decided by an AST analysis anchored on
                           call names and try/with nesting (never on line numbers).  An anchor that is not found makes
                           the obligation UNDECIDED, a found anchor with the wrong shape makes it FAILED.
 LAYER 2 (BOUNDED, dynamic) exhaustive fault enumeration: the real functions run in a temp directory with the modules
                           `os`, `shutil`, `tempfile`, `stat` (and the builtin `open`) of sqlfluff.core.linter.linted_file
-                          replaced by recording / fault-injecting proxies.  This is the deciding check and the replay of
-                          every layer-1 failure.
-
-pyvc (symbolic execution) was tried first: it walks the function (try/with/raise, 4 paths) once assumed contracts for
-os.stat / NamedTemporaryFile / ... exist, but the ghost file system (fs: path -> content, mode: path -> int) has no
-home: pyvc has no global ghost state, `raises`/`hint_on_raise` clauses can only speak about parameters, locals and heap
-objects, and the temp file is addressed by a *string* after the `with` block (os.remove(tmp_name)).  See EXPLANATION.
+                          replaced by recording / fault-injecting proxies.  This validates the assumed primitive contracts of
+                          layer 0 against the real os / CPython io and is the replay of every layer-1 failure.
 """
 from __future__ import annotations
 
@@ -34,6 +34,9 @@ import types
 PROP = "C26"
 LEVEL = "fault_enumeration"
 NATIVE_TRIES = {"quick": 0, "thorough": 0}
+
+# LAYER 0 (pyvc, symbolic): the two functions under contract over a ghost file system -- contracts/c26_fs.py
+from . import c26_fs as _fs  # noqa: E402,F401  (registers the contracts of PROP C26)
 
 SAFE = "sqlfluff.core.linter.linted_file:LintedFile._safe_create_replace_file"
 PERSIST = "sqlfluff.core.linter.linted_file:LintedFile.persist_tree"
@@ -1382,6 +1385,7 @@ def static_obligations(tier, seed):
 
 EXTRA = [static_obligations]
 BOUNDED = [fault_enumeration]
+SHARDS = {SAFE: 3}          # ~1300 small obligations of the writer, solved by three workers
 
 
 # =====================================================================================================================
@@ -1395,8 +1399,32 @@ RULE = ("one evaluation = one call of the real LintedFile._safe_create_replace_f
         "rewritten with different bytes; distinct = distinct (entry point, text, encoding, placement, mode, path spelling, fault point(s), fault mode, class)")
 
 EXPLANATION = (
-    "C26 is decided by exhaustive FAULT ENUMERATION of the real write path plus a static exception-flow analysis of the same source. "
-    "Dynamic layer: the module objects os, shutil, tempfile, stat (and a module-level `open`) inside sqlfluff.core.linter.linted_file are replaced by "
+    "C26 has three layers over the real source. "
+    "LAYER 0, deductive (pyvc, contracts/c26_fs.py): LintedFile._safe_create_replace_file is symbolically executed (about 325 paths: every "
+    "primitive call returning or raising, the handler's own calls returning or raising) against a contract written from the property text over a "
+    "GHOST FILE SYSTEM. A path is identified with the directory entry it names (ghost fields: exists, text, codec, newline handling, st_mode, "
+    "directory, creation stamp); one file-system object carries a fault counter and the temp-file creation history. Every primitive the function "
+    "calls (os.stat, stat.S_ISREG/S_IMODE, os.path.split/splitext, tempfile.NamedTemporaryFile, <file>.write/flush/fileno, os.fsync, the with-exit "
+    "= close, os.chmod, shutil.move, os.path.exists, os.remove; also open / os.replace so that changed code is decided) has an ASSUMED contract "
+    "with its effect on the ghost state when it returns and the state it leaves when it raises; each may raise OSError (or a subclass) and "
+    "KeyboardInterrupt at any call, write also UnicodeEncodeError, and a raising write / close leaves ARBITRARY partial content. shutil.move is "
+    "assumed atomic only under its precondition `source and target are in one directory`; that precondition is an obligation of the call site "
+    "(call-pre[move]) and is proved from the code's dir=dirname / os.path.split(output_path). Proved: post[ensures.*] on every normal return the "
+    "target holds exactly write_buff in the given encoding (utf-8-sig / utf-16 write their BOM: the codec IS the file's encoding) with newlines "
+    "untranslated and, when the input is a regular file, the input's permission bits; the input entry is unchanged when the target is another "
+    "entry; no temp file created during the call still exists. raises-post[<class>.1..4] on EVERY raising path (any primitive, any class incl. "
+    "KeyboardInterrupt): (.1) the target holds its complete original content (or is still absent) or the complete fixed content with the right "
+    "mode, (.2) the input is unchanged when it is another entry, (.3) at least one fault was counted, (.4) if exactly ONE fault occurred no temp "
+    "file is left (a second fault -- in the handler's os.path.exists / os.remove, or a failing close after a failing write -- is excluded from "
+    "this clause exactly as in the fault enumeration; clauses .1/.2 are proved under any number of faults). A process death at a primitive "
+    "boundary leaves the state in which that primitive's raising exit starts, and the handler provably touches only the temp entry, so clause .1 "
+    "on all raising paths is old-or-new at every failure point. LintedFile.persist_tree, LintedDir.persist_changes and the apply_fixes statements "
+    "of Linter.lint_paths (region contract) are verified over path STRINGS (z3 strings) with the call of the writer replaced by a ghost recorder: "
+    "at most one write per file, exactly when there are fixable violations and fix_string() reports success, with input = self.path, text = "
+    "fix_string()'s text, encoding = self.encoding, target = self.path without a suffix and a path DIFFERENT from self.path with one (root + "
+    "suffix + ext != root + ext, proved in z3's string theory inside the function's VC), and the callers hand the suffix through unchanged. "
+    "LAYER 2, dynamic (fault enumeration, the level this property is claimed at): the module objects os, shutil, tempfile, stat (and a module-"
+    "level `open`) inside sqlfluff.core.linter.linted_file are replaced by "
     "proxies, so every call the two functions make to the outside is recorded, can be made to raise, and is bracketed by an observer that reads "
     "the target file before and after it. Checked in every run: (1) at every primitive boundary and at the end the target holds exactly its old "
     "bytes (or is absent, for a new suffix file) or exactly text.encode(encoding) -- this is the state a process death at that point would "
@@ -1408,18 +1436,16 @@ EXPLANATION = (
     "fix_string() reports failure. Faults in the clean-up itself (os.path.exists / os.remove inside the handler, or anything called while the "
     "first failure is propagating) are enumerated too: old-or-new is still required there, but a temp file left behind by such a SECOND fault is "
     "listed under 'excluded by assumption' and not counted as a violation (DESIGN.md: a second fault during clean-up is assumed not to happen). "
-    "Kill-like SystemExit/KeyboardInterrupt are injected at every primitive as well; only old-or-new is required for them. "
-    "Static layer (18 obligations C26/static/*): the classified calls are the only calls of the two functions (so the dynamic proxies see "
-    "everything); output_path reaches only pure path arithmetic and the single shutil.move(<temp name>, output_path); the temp file is created "
+    "Kill-like SystemExit/KeyboardInterrupt are injected at every primitive as well. The enumeration runs the real os / CPython io, so it is also "
+    "the validation of layer 0's assumed primitive contracts (what close, chmod, move, a partial write really leave behind). "
+    "LAYER 1, static (18 obligations C26/static/*): the classified calls are the only calls of the two functions (so the dynamic proxies see "
+    "everything and layer 0's primitive table is complete); output_path reaches only pure path arithmetic and the single shutil.move(<temp name>, "
+    "output_path); the temp file is created "
     "with dir=dirname(output_path), delete=False, mode='w', encoding=<the encoding argument>, newline=''; write/flush/fsync are inside the "
     "with-block, close, chmod and move follow in that order; every may-raise site after the creation lies in the body of a try whose first "
     "handler catches BaseException, removes the temp file (guarded by `is not None` / os.path.exists) and re-raises, and the handler knows the "
     "name because `tmp_name = tmp.name` is the first statement of the with-block; the mode comes from os.stat(input_path); in persist_tree the "
-    "output is self.path or root + suffix + ext (z3 proves it differs from root + ext for a non-empty suffix), guarded by the fixable count and "
-    "by fix_string()'s success flag. pyvc was tried first: its executor walks the function (try/except BaseException, with, bare raise; 4 "
-    "paths) given assumed contracts, but it has no global ghost state to hold the file system, and exceptional postconditions can only mention "
-    "parameters, locals and heap objects while the temp file is a string-named entity after the with-block; the ordering obligations were "
-    "therefore discharged syntactically and decided dynamically.")
+    "output is self.path or root + suffix + ext, guarded by the fixable count and by fix_string()'s success flag.")
 
 TRUSTED = [
     "rename(2) within one directory is atomic (shutil.move -> os.rename when source and target are on one file system): the target is never observable between old and new INSIDE the move",
@@ -1428,6 +1454,24 @@ TRUSTED = [
     "os.path.split/splitext, stat.S_ISREG/S_IMODE, <file>.fileno, <file>.__enter__ and attribute reads do not fail for file-system reasons (no fault is injected there)",
     "fault model: an operation either does nothing and raises, is carried out and then raises, or (write) puts half of the text on disk and raises; close always releases the descriptor",
     "CPython io / codecs: what TextIOWrapper writes for one write() from position 0 is compared against str.encode(encoding), not assumed",
+    # ---- layer 0 (pyvc)
+    "pyvc layer, abstraction: in the contract of _safe_create_replace_file a path (str) is identified with the directory entry it names (the function only "
+    "hands paths to os/shutil/tempfile); one path names one entry for the duration of the call (F1); nothing is assumed about whether two paths name the same entry",
+    "pyvc layer, model classes (contracts/c26_fs.py): FileModel stands for tempfile._TemporaryFileWrapper AND the TextIOWrapper behind it (tmp.file is tmp), its "
+    "with-exit is close (model hook _close_hook: the written text reaches the entry at close with the codec / newline handling of the open call; a failing close "
+    "leaves arbitrary content); flush / fsync / fileno have no effect on the modelled state (they can only raise)",
+    "pyvc layer, every assumed primitive contract (listed individually above as `assumed contract: ...`) including its exceptional postcondition; in particular "
+    "shutil.move / os.replace within ONE directory either happened completely or not at all, also when the call raises; os.stat raises FileNotFoundError exactly "
+    "when the entry does not exist; os.chmod keeps the file type and sets the 12 permission bits; NamedTemporaryFile creates a NEW entry (creation stamp later than "
+    "that of every entry the caller can name, i.e. it is none of them) in `dir`, and creates nothing when it raises",
+    "pyvc layer, fault classes: OSError+ and KeyboardInterrupt at every primitive (os.stat: FileNotFoundError / PermissionError / KeyboardInterrupt; write also "
+    "UnicodeEncodeError) stand for every exception class; handlers are matched by the class hierarchy only",
+    "pyvc layer, persist_tree and its callers: the call of _safe_create_replace_file is replaced by a ghost RECORDER of its arguments (no file-system claim); that a "
+    "path string different from self.path names a different file than self.path is the reading of `the original file is never modified` at this level "
+    "(symlinks / hard links / `..` inside the suffix are not modelled); num_violations(fixable=True, filter_warning=False) and fix_string() are ghost views "
+    "(g_fixable, fixed_text, fix_ok) as in contracts/c18.py",
+    "pyvc engine addition (pyvc/stmts.py call_contract): the hint_on_raise of an ASSUMED (external) contract is assumed on its raising exit after the havoc of "
+    "`modifies` (before: nothing could be said about the state a raising primitive leaves)",
 ]
 NOT_COVERED = [
     "durability after power loss (whether fsync of the file and of the directory make the rename durable) -- only process-level failure points are modelled",
@@ -1436,8 +1480,15 @@ NOT_COVERED = [
     "targets that are symlinks or hard links (rename replaces the link itself), ownership (uid/gid), ACLs and extended attributes are not preserved by design and not checked",
     "Windows semantics (open files cannot be removed/renamed; os.chmod only toggles read-only): the enumeration runs on POSIX",
     "a move across file systems is not exercised: it cannot occur while the temp file is created in the target's directory (that is checked statically and at run time)",
-    "cli.commands fix/format and Linter.lint_paths(apply_fixes=True) above persist_changes: which files are persisted and exit codes belong to C22/C18",
+    "cli.commands fix/format and the rest of Linter.lint_paths(apply_fixes=True) (only its writing statements are a region contract here): which files are persisted and exit codes belong to C22/C18",
     "fix_string()'s content (what the fixed text is) belongs to C10/C11/C30; here the text handed to the writer is taken as given",
+    "pyvc layer: the committing effect of flush()/fsync() is not modelled (content reaches the entry at close): code that renames the still-open temp file after "
+    "flush+fsync would be reported although on POSIX its content is complete (the static layer reports that shape too); an explicit tmp.close() / shutil.copyfile "
+    "has no contract (undecided, not failed)",
+    "pyvc layer: a NamedTemporaryFile(delete=True) variant always fails at chmod/move in the model and therefore satisfies the contract vacuously (every path "
+    "raises with the target untouched); `the clean run succeeds` is a clause of the fault enumeration only",
+    "pyvc layer: LintingResult.persist_changes (a generator expression over LintedDir.persist_changes) and the rest of Linter.lint_paths are not under contract; "
+    "the 3-file runs of the fault enumeration go through them",
 ]
 ASSUMPTIONS = [
     "F1 single-threaded, no concurrent writer on the same directory during a fix",
@@ -1493,4 +1544,44 @@ MUTANTS = [
     ("handler_swallows", _F, "                os.remove(tmp_name)\n            raise\n", "                os.remove(tmp_name)\n"),
     ("write_despite_failed_fix", _F, "            if success:\n                fname = self.path", "            if success or write_buff:\n                fname = self.path"),
     ("move_inside_with", _F, "                os.fsync(tmp.fileno())\n", "                os.fsync(tmp.fileno())\n                shutil.copyfile(tmp_name, output_path)\n"),
+    # ---- added with the pyvc layer (each is caught by the pyvc obligation ids listed in PYVC_CATCHES below)
+    ("handler_narrowed_to_exception", _F, "        except BaseException:\n", "        except Exception:\n"),
+    ("chmod_dropped", _F, "            if mode is not None:\n                os.chmod(tmp_name, mode)\n            shutil.move(tmp_name, output_path)\n",
+     "            shutil.move(tmp_name, output_path)\n"),
+    ("text_truncated_write", _F, "                tmp.file.write(write_buff)\n", "                tmp.file.write(write_buff[:65536])\n"),
+    ("persist_tree_stats_the_target", _F, "                    self.path, fname, write_buff, self.encoding\n", "                    fname, fname, write_buff, self.encoding\n"),
+    ("persist_tree_default_encoding", _F, "                    self.path, fname, write_buff, self.encoding\n", "                    self.path, fname, write_buff, \"utf-8\"\n"),
+    ("persist_tree_writes_without_fixable", _F, "        if self.num_violations(fixable=True, filter_warning=False) > 0:\n            write_buff, success = self.fix_string()",
+     "        if self.num_violations(fixable=True, filter_warning=False) >= 0:\n            write_buff, success = self.fix_string()"),
+    ("persist_changes_drops_suffix", "sqlfluff/core/linter/linted_dir.py", "                suffix=fixed_file_suffix, formatter=formatter\n", "                formatter=formatter\n"),
+    ("lint_paths_drops_suffix", "sqlfluff/core/linter/linter.py", "                            suffix=fixed_file_suffix, formatter=self.formatter\n", "                            formatter=self.formatter\n"),
 ]
+
+# which pyvc obligation (stable id, as printed in the VIOLATION lines / evidence) decides each mutant and seeded change; W = the writer, P = persist_tree
+_W = "C26/sqlfluff.core.linter.linted_file.LintedFile._safe_create_replace_file/"
+_P = "C26/sqlfluff.core.linter.linted_file.LintedFile.persist_tree/"
+PYVC_CATCHES = {
+    "write_directly_to_output": _W + "raises-post[*.1] (target neither old nor complete-new when write / close raises)",
+    "cleanup_removed": _W + "raises-post[*.4] (temp file left after a single fault)",
+    "chmod_after_move": _W + "raises-post[*.1] (new content with the temp file's mode when chmod raises)",
+    "temp_in_system_tmpdir": _W + "call-pre[move] (source and target not known to be in one directory)",
+    "encoding_dropped": _W + "post[ensures.3] + raises-post[*.1]",
+    "mode_from_output": _W + "post[ensures.5] + raises-post[*.1]",
+    "handler_only_oserror": _W + "raises-post[KeyboardInterrupt.4] / raises-post[UnicodeEncodeError.4]",
+    "handler_narrowed_to_exception": _W + "raises-post[KeyboardInterrupt.4]   (= seeded C26_A)",
+    "name_recorded_after_write": _W + "raises-post[*.4] at the write",
+    "newline_translation": _W + "post[ensures.4] + raises-post[*.1]",
+    "handler_swallows": _W + "post[ensures.1..5] (normal return with the old content)",
+    "chmod_dropped": _W + "post[ensures.5] + raises-post[*.1]",
+    "text_truncated_write": "NOT decided by pyvc (z3 answers sat, the bounded refutation encoding has texts of length <= 3 for which the slice is the whole "
+                            "text: undecided); static o2 / o5 + enumeration",
+    "persist_tree_stats_the_target": _P + "post[ensures.3] + raises-post[BaseException.4]",
+    "persist_tree_default_encoding": _P + "post[ensures.5] + raises-post[BaseException.6]",
+    "persist_tree_writes_without_fixable": _P + "post[ensures.2] + raises-post[BaseException.2]",
+    "persist_changes_drops_suffix": "C26/sqlfluff.core.linter.linted_dir.LintedDir.persist_changes/inv-preserve[1.3]",
+    "lint_paths_drops_suffix": "C26/sqlfluff.core.linter.linter.Linter.lint_paths#apply-fixes-write/post[ensures.8]   (pyvc only: not on the enumeration's routes)",
+    "suffix_ignored": _P + "post[ensures.6] + raises-post[BaseException.7]",
+    "write_despite_failed_fix": _P + "post[ensures.2] + raises-post[BaseException.3]",
+    "seeded C26_B (direct write when the target does not exist)": _W + "raises-post[*.1]",
+    "move_inside_with": "NOT decided by pyvc (shutil.copyfile has no contract: undecided); static o1 + enumeration",
+}
